@@ -4,6 +4,7 @@
 // (persistent workers for throughput, one-shot children for gating/shrinking/replay), so a
 // "fresh process" is always one fork away and function-local statics of the SUT start pristine.
 #include "core.h"
+#include "simfs.h"
 #include <algorithm>
 #include <cerrno>
 #include <chrono>
@@ -179,6 +180,7 @@ static Outcome run_fresh(const Plan & plan, const RunCtx & ctx, double timeout_s
     std::string l = o.line() + "\n";
     ssize_t w = ::write(pfd[1], l.data(), l.size());
     (void)w;
+    fs::cleanup_process();
     _exit(0);
   }
   close(pfd[1]);
